@@ -10,6 +10,8 @@ import (
 	"go/ast"
 	"go/format"
 	"go/token"
+	"os"
+	"path/filepath"
 	"reflect"
 	"sort"
 	"strings"
@@ -41,7 +43,7 @@ type Case struct {
 	Target      string            `json:"target"`
 	DropImports bool              `json:"drop_imports"` // edit before restoring: all import declarations removed (the restorer must add them)
 	K           int               `json:"k"`            // 0: enumerate every k; >0: only this k (set in replay files)
-	Op          string            `json:"op"`           // "" all | "decorate-gotypes" | "decorate-goast" | "restore"
+	Op          string            `json:"op"`           // "" all | "decorate-gotypes" | "decorate-goast" | "decorate-package" | "parsefile-broken" | "parsedir" | "restore"
 }
 
 // failing resolvers: fail exactly at the k-th call
@@ -285,6 +287,52 @@ func check(t h.TB, c Case) {
 			}
 			if out != nil {
 				h.Fail(t, sub, cc, "ParseFile returned a tree together with the resolver's error")
+			}
+		}
+	}
+
+	// ---------- ParseDir with a failing resolver ----------
+	anyDot := false
+	for _, f := range ck.Files {
+		anyDot = anyDot || hasDot(f)
+	}
+	if (c.Op == "" || c.Op == "parsedir") && !anyDot {
+		dir, derr := os.MkdirTemp("", "verif-c17-")
+		if derr != nil {
+			t.Fatalf("infrastructure: %v", derr)
+		}
+		defer os.RemoveAll(dir)
+		for n, src := range c.Root {
+			if err := os.WriteFile(filepath.Join(dir, n), []byte(src), 0o644); err != nil {
+				t.Fatalf("infrastructure: %v", err)
+			}
+		}
+		acc := goast.WithResolver(simple.New(p.Names))
+		dry := &failIdent{inner: acc}
+		if _, err := decorator.NewDecoratorWithImports(token.NewFileSet(), rootPath, dry).ParseDir(dir, nil, 0); err != nil {
+			h.Fail(t, sub, c, "failure-free ParseDir failed: %v", err)
+		}
+		ks := map[int]bool{1: true, 2: true, dry.n / 2: true, dry.n: true}
+		for k := 1; k <= dry.n; k++ {
+			if !want(k) || (c.K == 0 && !ks[k]) {
+				continue
+			}
+			cc := c
+			cc.K, cc.Op = k, "parsedir"
+			h.Eval("inject:parsedir")
+			if k > 1 {
+				h.NonTrivial(sub, "pd", fmt.Sprint(k), c.Root[c.Target])
+			}
+			var out map[string]*dst.Package
+			var perr error
+			h.Guard(t, sub, cc, func() {
+				out, perr = decorator.NewDecoratorWithImports(token.NewFileSet(), rootPath, &failIdent{inner: acc, k: k}).ParseDir(dir, nil, 0)
+			})
+			if perr == nil || !errors.Is(perr, errInjected) {
+				h.Fail(t, sub, cc, "ParseDir: ResolveIdent call %d of %d failed, but the returned error does not wrap it: %v", k, dry.n, perr)
+			}
+			if out != nil {
+				h.Fail(t, sub, cc, "ParseDir returned packages together with the resolver's error")
 			}
 		}
 	}
